@@ -453,6 +453,7 @@ func (r *runner) step(s Step) (flow, error) {
 		}
 		next := r.latest().Apply(ops)
 		r.pending = next
+		firedBefore := r.inj.firedTotal()
 		wo := pebble.NoSync
 		if s.Sync && r.walOn() {
 			wo = pebble.Sync
@@ -505,6 +506,12 @@ func (r *runner) step(s Step) (flow, error) {
 		if s.Sync && r.walOn() {
 			r.durable = len(r.versions) - 1
 			r.C["sync-commits-acked"]++
+			if r.inj.firedTotal() > firedBefore {
+				// a fault fired during this acknowledged Sync commit
+				if err := r.crashImagesSurv("crash image right after an acknowledged Sync commit", []int{0}); err != nil {
+					return flowGo, err
+				}
+			}
 		}
 	case "get":
 		type getRes struct {
@@ -589,6 +596,14 @@ func (r *runner) step(s Step) (flow, error) {
 		} else {
 			r.durable = len(r.versions) - 1
 			r.C["flush-acked"]++
+			if r.fired() {
+				// A fault has fired: does the acknowledgement hold right now, before
+				// later MANIFEST / WAL syncs cover up an ignored failure? Only synced
+				// data survives in this image.
+				if err := r.crashImagesSurv("crash image right after an acknowledged Flush", []int{0}); err != nil {
+					return flowGo, err
+				}
+			}
 		}
 	case "compact":
 		if s.A == "" || s.B == "" || cmpKey(s.A, s.B) >= 0 {
@@ -759,13 +774,17 @@ func keepFn(surv int) func(string, int) bool {
 // applies the recovery oracle to each: Open (no faults) succeeds and the state
 // is one of versions[durable:] or the pending one.
 func (r *runner) crashImages(what string) error {
-	cands := append([]*dbm.State(nil), r.versions[r.durable:]...)
-	if r.pending != nil {
-		cands = append(cands, r.pending)
-	}
 	survs := r.p.End.Surv
 	if len(survs) == 0 {
 		survs = []int{0, 1}
+	}
+	return r.crashImagesSurv(what, survs)
+}
+
+func (r *runner) crashImagesSurv(what string, survs []int) error {
+	cands := append([]*dbm.State(nil), r.versions[r.durable:]...)
+	if r.pending != nil {
+		cands = append(cands, r.pending)
 	}
 	for _, sv := range survs {
 		img := r.mem.VerifCrashClone(keepFn(sv))
